@@ -40,7 +40,9 @@ def case_st(draw):
             st_sec = draw(st.sampled_from([s_ for s_ in (0x102, 0x202, 0x302) if s_ + 3 < total]))
             special.append(_ent(b"AT102", st_sec, 600, 2))
         hi = special[0]["start"] if special else total
-        mid = draw(gen.entries_for(cursor, hi, 20 if variant != "watford" else 25, CHARS, None, True, False))
+        # up to a completely full catalogue (slot 31 is then the file that starts right after the catalogue)
+        room = 31 - len(first) - len(special)
+        mid = draw(gen.entries_for(cursor, hi, room if variant != "watford" else min(room, 28), CHARS, None, True, False))
         ents = sorted(first + mid + special, key=lambda e: -e["start"])
         vol = {"label": None, "title": draw(gen.title_st()), "cycle": draw(st.integers(0, 255)),
                "boot": draw(st.integers(0, 3)), "total": total}
@@ -157,6 +159,8 @@ class C13(CheckBase):
             v.nontrivial = True
         v.classes.extend(sorted(set(p.split(":")[0].split("@")[0] for p in placed)))
         v.classes.append("variant-" + variant)
+        if any(len(c) == 31 for vol in s["volumes"] for c in vol["cats"]):
+            v.classes.append("full-catalogue-fragment")
         dd = spt != 10
         if case["two_sided"]:
             other = {"variant": "acorn", "tracks": tracks, "spt": spt, "fill": {"kind": "rand", "seed": 9},
